@@ -87,6 +87,7 @@ def install():
         b_status = itask.state.status
         b_outs = sorted(itask.state.outputs.get_completed_outputs())
         b_num = itask.submit_num
+        b_transient = bool(itask.transient)   # already out of the pool?
         ev = _emit('MSG_IN', id=itask.identity, message=message, flag=flag,
                    submit_num=submit_num, cur_num=b_num, forced=bool(forced),
                    status=b_status, outputs=b_outs, depth=depth,
@@ -102,7 +103,8 @@ def install():
               status_after=itask.state.status, outputs_before=b_outs,
               outputs_after=sorted(
                   itask.state.outputs.get_completed_outputs()),
-              depth=depth, transient=bool(itask.transient),
+              depth=depth, transient=b_transient,
+              removed=bool(itask.transient) and not b_transient,
               in_seq=ev['seq'] if ev else None)
         return ret
     TaskEventsManager.process_message = process_message
